@@ -110,6 +110,9 @@ def oracle(line, raw, w):
             if kinds == ['L'] and res.events[0][1].endswith(b'added'):
                 if after[:-1] != before or not after or after[-1][0] != want_id:
                     return 'op %d: `added` must append exactly slot %r; ids before %r after %r' % (i, want_id, [x[0] for x in before], [x[0] for x in after])
+                if want_id in dict(before):
+                    # (a second entry under an id that is already stored: the lookup did not find the slot it addresses)
+                    return 'op %d: `added` although slot %r is already stored: the call did not find its own slot' % (i, want_id)
                 if t[0] == 'snap' and after[-1][1] != esc(b'\n'.join(core.unhx(x) for x in t[3:])):
                     return 'op %d: stored body differs from the escaped value' % i
             elif kinds == ['L'] and res.events[0][1].endswith(b'updated'):
